@@ -72,6 +72,7 @@ func c08Run(s *c08Scn, version, segName string) verdict {
 	}
 
 	sess, err = newNcSession(ncConfig{adv10: true, adv11: true, preferred: version, echo: s.Echo, seg: faultSegs[segName], seed: int64(s.idx), timeout: 4 * time.Second, readDelay: rd,
+		onlcr: s.idx%4 == 2, // one session in four over a transport that delivers CR LF for LF; a read may end between the two
 		replyMulti: func(_ *simdev.NCServer, r simdev.NCRequest) [][]byte {
 			reqNo++
 			k := reqNo
